@@ -213,6 +213,39 @@ func (g *gstate) apply(cfg *ipa.IPAConfig, o *gop, e ev, rnd *prg) {
 		P[o.D] = banderwagon.VerifFromCoords(fpFromBig(x), fpFromBig(y), fpFromBig(big.NewInt(1)))
 		e["pt"] = [][]int{limbsOfBig(x), limbsOfBig(y)}
 		g.st[o.D] = "ok"
+	case "rpt":
+		// an element whose ratio x/y (what MapToScalarField reduces mod r) sits at a boundary of that reduction: next to a multiple of r,
+		// agreeing with k*r on its top limb, next to p, next to 0, next to a 64-bit limb boundary
+		k := int64(1 + o.A%4)
+		j := int64(1 + o.A/4)
+		kr := new(big.Int).Mul(modR, big.NewInt(k))
+		var rho *big.Int
+		step := int64(1)
+		switch o.S {
+		case "kr-":
+			rho, step = new(big.Int).Sub(kr, big.NewInt(j)), -1
+		case "kr+":
+			rho = new(big.Int).Add(kr, big.NewInt(j-1))
+		case "krlow": // below k*r, same top 64 bits
+			rho, step = new(big.Int).Sub(kr, new(big.Int).Rsh(rnd.big(256), 70)), -1
+		case "nearp":
+			rho, step = new(big.Int).Sub(modP, big.NewInt(j)), -1
+		case "small":
+			rho = big.NewInt(j)
+		default: // "limb": next to 2^64, 2^128, 2^192
+			rho = new(big.Int).Lsh(big.NewInt(1), uint(64*(1+o.A%3)))
+			if o.A%2 == 0 {
+				rho.Sub(rho, big.NewInt(j))
+				step = -1
+			}
+		}
+		x, y := pointFromRatio(rho, step)
+		if o.A%8 >= 4 {
+			x, y = subm(big.NewInt(0), x), subm(big.NewInt(0), y)
+		}
+		P[o.D] = banderwagon.VerifFromCoords(fpFromBig(x), fpFromBig(y), fpFromBig(big.NewInt(1)))
+		e["pt"] = [][]int{limbsOfBig(x), limbsOfBig(y)}
+		g.st[o.D] = "ok"
 	case "add":
 		P[o.D].Add(&P[o.A], &P[o.B])
 		g.st[o.D] = "ok"
